@@ -23,13 +23,56 @@ import (
 
 const modPath = "nhooyr.io/websocket"
 
-var libPatterns = []string{
+var baseLibPatterns = []string{
 	modPath,
 	modPath + "/wsjson",
 	modPath + "/internal/bpool",
 	modPath + "/internal/errd",
 	modPath + "/internal/util",
 	modPath + "/internal/xsync",
+}
+
+// libPatterns: the library packages of the program being loaded: the six of the reference tree plus every other package
+// of the module that they import (code moved into a new internal package is still library code).
+var libPatterns = append([]string{}, baseLibPatterns...)
+
+func isBaseLib(path string) bool {
+	for _, b := range baseLibPatterns {
+		if b == path {
+			return true
+		}
+	}
+	return false
+}
+
+// extraLibPackages: packages of the module imported (transitively) by the loaded library packages that are not among the patterns.
+func extraLibPackages(pkgs []*packages.Package, have []string) []string {
+	in := map[string]bool{}
+	for _, h := range have {
+		in[h] = true
+	}
+	seen := map[string]bool{}
+	var out []string
+	var walk func(pk *packages.Package)
+	walk = func(pk *packages.Package) {
+		if seen[pk.PkgPath] {
+			return
+		}
+		seen[pk.PkgPath] = true
+		if strings.HasPrefix(pk.PkgPath, modPath+"/") && !in[pk.PkgPath] {
+			out = append(out, pk.PkgPath)
+		}
+		if pk.PkgPath == modPath || strings.HasPrefix(pk.PkgPath, modPath+"/") {
+			for _, imp := range pk.Imports {
+				walk(imp)
+			}
+		}
+	}
+	for _, pk := range pkgs {
+		walk(pk)
+	}
+	sort.Strings(out)
+	return out
 }
 
 // Program is one loaded configuration of the repository.
@@ -52,6 +95,7 @@ type Program struct {
 	absorbed    map[string]*ssa.Function // reference functions inlined into their only caller
 	RenameNotes []string
 	storeCache map[*ssa.Function]map[string]bool
+	nnFields   map[string]map[*ssa.Function]bool
 }
 
 func loadProgram(repo, goarch string) (*Program, error) {
@@ -71,9 +115,17 @@ func loadProgram(repo, goarch string) (*Program, error) {
 		Env:   env,
 		Tests: false,
 	}
+	libPatterns = append([]string{}, baseLibPatterns...)
 	pkgs, err := packages.Load(cfg, libPatterns...)
 	if err != nil {
 		return nil, fmt.Errorf("packages.Load: %v", err)
+	}
+	if extra := extraLibPackages(pkgs, libPatterns); len(extra) > 0 {
+		libPatterns = append(libPatterns, extra...)
+		pkgs, err = packages.Load(cfg, libPatterns...)
+		if err != nil {
+			return nil, fmt.Errorf("packages.Load: %v", err)
+		}
 	}
 	if len(pkgs) == 0 {
 		return nil, fmt.Errorf("no packages loaded from %s", repo)
@@ -461,6 +513,41 @@ func (p *Program) resolveRenames() {
 			p.RenameNotes = append(p.RenameNotes, fmt.Sprintf("function %s of the reference tree is gone; %s (%s) has the same receiver and signature and is analysed in its place", olds[0], now, p.FuncPos(fs[0])))
 		}
 	}
+	// second pass: a reference function that is still missing and a function of a package the reference tree does not
+	// have, with the same receiver-less signature, unique in both directions: the function was moved into a new package
+	stillMissing := map[string][]string{}
+	for name, sig := range knownSigs {
+		if present[name] {
+			continue
+		}
+		taken := false
+		for _, n := range p.renamed {
+			if n == name {
+				taken = true
+			}
+		}
+		if !taken {
+			if i := strings.Index(sig, "|"); i >= 0 {
+				stillMissing[sig[i:]] = append(stillMissing[sig[i:]], name)
+			}
+		}
+	}
+	movedBySig := map[string][]*ssa.Function{}
+	for _, f := range fresh {
+		if _, done := p.renamed[f]; done || f.Pkg == nil || isBaseLib(f.Pkg.Pkg.Path()) || f.Signature.Recv() != nil {
+			continue
+		}
+		k := p.sigKey(f)
+		if i := strings.Index(k, "|"); i >= 0 {
+			movedBySig[k[i:]] = append(movedBySig[k[i:]], f)
+		}
+	}
+	for sig, fs := range movedBySig {
+		if olds := stillMissing[sig]; len(fs) == 1 && len(olds) == 1 {
+			p.renamed[fs[0]] = olds[0]
+			p.RenameNotes = append(p.RenameNotes, fmt.Sprintf("function %s of the reference tree is gone; %s.%s (%s) in a package the reference tree does not have has the same signature and is analysed in its place", olds[0], fs[0].Pkg.Pkg.Name(), fs[0].Name(), p.FuncPos(fs[0])))
+		}
+	}
 	sort.Strings(p.RenameNotes)
 }
 
@@ -472,6 +559,10 @@ func (p *Program) isLib(fn *ssa.Function) bool {
 	pk := fn.Package()
 	if pk == nil && fn.Parent() != nil {
 		return p.isLib(fn.Parent())
+	}
+	// an instantiation of a generic function belongs to the package of its origin
+	if pk == nil && fn.Origin() != nil && fn.Origin() != fn {
+		return p.isLib(fn.Origin())
 	}
 	if pk == nil || pk.Pkg == nil {
 		return false
